@@ -419,11 +419,9 @@ Definition effective_version (i : pj_input) : bytes :=
 
 Lemma perform_join_ok i used :
   perform_join i = PJJoined used ->
-  perform_join_admissible i = true /\
+  perform_join_admissible i used = true /\
   version_known (effective_version i) = true /\
-  pj_user_nil i = false /\ pj_room_nil i = false /\ pj_keyring_nil i = false /\
-  (used = true -> exists r, pj_remote i = Some r /\ pr_parse_ok r = true /\
-                  pr_membership r = Some s_join /\ pr_room_id r = pj_room_id i).
+  pj_user_nil i = false /\ pj_room_nil i = false /\ pj_keyring_nil i = false.
 Proof.
   unfold perform_join, perform_join_admissible, effective_version.
   destruct (pj_user_nil i); simpl; [discriminate|].
@@ -437,32 +435,44 @@ Proof.
      else if negb (pj_send_join_ok i) then PJError true false
      else if negb (contains_create (pj_auth_events i)) then PJError false true
      else if bytes_eqb ver v_pseudo_ids && negb (pj_store_ok i) then PJError false true
-     else if negb (pj_check_ok i) then PJError false true
+     else if negb (if match pj_remote i with
+                      | Some r => pr_parse_ok r && well_formed_join r (pj_room_id i) sender
+                      | None => false
+                      end then pj_check_remote i else pj_check_own i) then PJError false true
      else PJJoined match pj_remote i with
                    | Some r => pr_parse_ok r && well_formed_join r (pj_room_id i) sender
                    | None => false
                    end) = PJJoined used ->
-    pj_send_join_ok i && pj_check_ok i && existsb is_known_create (pj_auth_events i) = true /\
-    true = true /\ false = false /\ false = false /\ false = false /\
-    (used = true -> exists r, pj_remote i = Some r /\ pr_parse_ok r = true /\
-                    pr_membership r = Some s_join /\ pr_room_id r = pj_room_id i)).
+    pj_send_join_ok i && (if used then pj_check_remote i else pj_check_own i) &&
+    existsb is_known_create (pj_auth_events i) &&
+    (negb used ||
+     match pj_remote i with
+     | Some r => pr_parse_ok r &&
+                 match pr_membership r with Some m => bytes_eqb m s_join | None => false end &&
+                 bytes_eqb (pr_room_id r) (pj_room_id i)
+     | None => false
+     end) = true /\
+    true = true /\ false = false /\ false = false /\ false = false).
   { intros sender.
     destruct (pj_build_ok i); simpl; [|discriminate].
     destruct (pj_send_join_ok i); simpl; [|discriminate].
     destruct (contains_create (pj_auth_events i)) eqn:Ec; simpl; [|discriminate].
     destruct (bytes_eqb ver v_pseudo_ids && negb (pj_store_ok i)); simpl; [discriminate|].
-    destruct (pj_check_ok i); simpl; [|discriminate].
-    intro H. inversion H as [Hu]. rewrite (contains_create_exists _ Ec).
+    set (ru := match pj_remote i with
+               | Some r => pr_parse_ok r && well_formed_join r (pj_room_id i) sender
+               | None => false end).
+    destruct (if ru then pj_check_remote i else pj_check_own i) eqn:Ck; simpl; [|discriminate].
+    intro H. assert (ru = used) by congruence. subst used.
+    rewrite Ck, (contains_create_exists _ Ec). simpl.
     repeat split.
-    destruct (pj_remote i) as [r|]; [|discriminate].
-    intros Hused. exists r. split; [reflexivity|].
-    unfold well_formed_join in Hused.
-    destruct (pr_parse_ok r); simpl in Hused; [|discriminate].
-    destruct (pr_membership r) as [m|]; [|discriminate].
-    apply andb_true_iff in Hused. destruct Hused as [Hused _].
-    apply andb_true_iff in Hused. destruct Hused as [Hm Hr].
-    apply bytes_eqb_eq in Hm. apply bytes_eqb_eq in Hr. subst m.
-    repeat split; exact Hr. }
+    unfold ru. destruct (pj_remote i) as [r|]; [|reflexivity].
+    unfold well_formed_join.
+    destruct (pr_parse_ok r); simpl; [|reflexivity].
+    destruct (pr_membership r) as [m|]; simpl; [|reflexivity].
+    destruct (bytes_eqb m s_join); simpl; [|reflexivity].
+    destruct (bytes_eqb (pr_room_id r) (pj_room_id i)); simpl; [|reflexivity].
+    destruct (pr_state_key r) as [k|]; [|reflexivity].
+    destruct (bytes_eqb k sender); reflexivity. }
   destruct (bytes_eqb (pj_resp_version i) v_pseudo_ids).
   - destruct (pj_sender_id i) as [s|]; [|discriminate].
     destruct (pj_mapping_sign_ok i); simpl; [|discriminate].
@@ -634,26 +644,37 @@ Proof.
     exists cur. split; [reflexivity|]. intro E. subst cur. discriminate.
 Qed.
 
-Lemma perform_join_admissible_meaning i :
-  perform_join_admissible i = true ->
-  pj_make_join_ok i = true /\ pj_send_join_ok i = true /\ pj_check_ok i = true /\
-  exists e, In e (pj_auth_events i) /\ pa_type e = m_room_create /\ pa_state_key e = Some [] /\
-            pa_content_ok e = true /\
-            version_known (match pa_room_version e with [] => v_1 | v => v end) = true.
+Lemma perform_join_admissible_meaning i used :
+  perform_join_admissible i used = true ->
+  pj_make_join_ok i = true /\ pj_send_join_ok i = true /\
+  (if used then pj_check_remote i else pj_check_own i) = true /\
+  (exists e, In e (pj_auth_events i) /\ pa_type e = m_room_create /\ pa_state_key e = Some [] /\
+             pa_content_ok e = true /\
+             version_known (match pa_room_version e with [] => v_1 | v => v end) = true) /\
+  (used = true -> exists r, pj_remote i = Some r /\ pr_parse_ok r = true /\
+                  pr_membership r = Some s_join /\ pr_room_id r = pj_room_id i).
 Proof.
   unfold perform_join_admissible. intro H.
+  apply andb_true_iff in H. destruct H as [H Hu].
   apply andb_true_iff in H. destruct H as [H Hex].
   apply andb_true_iff in H. destruct H as [H Hc].
   apply andb_true_iff in H. destruct H as [Hm Hs].
-  repeat split; try assumption.
-  apply existsb_exists in Hex. destruct Hex as [e [Hin He]].
-  unfold is_known_create in He.
-  apply andb_true_iff in He. destruct He as [He Hv].
-  apply andb_true_iff in He. destruct He as [He Hco].
-  apply andb_true_iff in He. destruct He as [Ht Hk].
-  destruct (pa_state_key e) as [k|] eqn:Ek; [|discriminate].
-  apply bytes_eqb_eq in Hk. subst k.
-  exists e. repeat split; try assumption. apply bytes_eqb_eq. exact Ht.
+  split; [exact Hm|]. split; [exact Hs|]. split; [exact Hc|]. split.
+  - apply existsb_exists in Hex. destruct Hex as [e [Hin He]].
+    unfold is_known_create in He.
+    apply andb_true_iff in He. destruct He as [He Hv].
+    apply andb_true_iff in He. destruct He as [He Hco].
+    apply andb_true_iff in He. destruct He as [Ht Hk].
+    destruct (pa_state_key e) as [k|] eqn:Ek; [|discriminate].
+    apply bytes_eqb_eq in Hk. subst k.
+    exists e. repeat split; try assumption. apply bytes_eqb_eq. exact Ht.
+  - intro U. subst used. simpl in Hu.
+    destruct (pj_remote i) as [r|]; [|discriminate].
+    apply andb_true_iff in Hu. destruct Hu as [Hu Hr].
+    apply andb_true_iff in Hu. destruct Hu as [Hp Hmm].
+    destruct (pr_membership r) as [m|] eqn:Em; [|discriminate].
+    apply bytes_eqb_eq in Hmm. apply bytes_eqb_eq in Hr. subst m.
+    exists r. split; [reflexivity|]. split; [exact Hp|]. split; [exact Em|exact Hr].
 Qed.
 
 Lemma version_check_via_spec ver localname room sender d u log :
